@@ -39,15 +39,24 @@ def sh(cmd, timeout=None, cwd=None, env=None, input=None):
 
 
 class BuildLock:
+    """Process-wide build lock (flock on build/.lock), re-entrant within this process."""
+    _depth = 0
+    _f = None
+
     def __enter__(self):
-        BUILD.mkdir(exist_ok=True)
-        self.f = open(BUILD / ".lock", "w")
-        fcntl.flock(self.f, fcntl.LOCK_EX)
+        if BuildLock._depth == 0:
+            BUILD.mkdir(exist_ok=True)
+            BuildLock._f = open(BUILD / ".lock", "w")
+            fcntl.flock(BuildLock._f, fcntl.LOCK_EX)
+        BuildLock._depth += 1
         return self
 
     def __exit__(self, *a):
-        fcntl.flock(self.f, fcntl.LOCK_UN)
-        self.f.close()
+        BuildLock._depth -= 1
+        if BuildLock._depth == 0:
+            fcntl.flock(BuildLock._f, fcntl.LOCK_UN)
+            BuildLock._f.close()
+            BuildLock._f = None
 
 
 # ---------------------------------------------------------------- encoding for modelrun
@@ -92,7 +101,16 @@ def coq_files():
     return fs
 
 
+GEN_OWNER = {"current": None, "written": {}}      # which property's gen() wrote which coq/Gen file (this run)
+
+
 def write_if_changed(path: Path, content: str) -> bool:
+    try:
+        rel = Path(path).resolve().relative_to(COQ).as_posix()
+        if rel.startswith("Gen/") and GEN_OWNER["current"]:
+            GEN_OWNER["written"][rel] = GEN_OWNER["current"]
+    except ValueError:
+        pass
     path.parent.mkdir(parents=True, exist_ok=True)
     if path.exists() and path.read_text() == content:
         return False
@@ -361,12 +379,47 @@ def run_property(mod, tier, seed, replay=None):
         data = json.loads(Path(replay).read_text())
         return mod.replay(ctx, data)
 
-    # 1. gen
+    # 1. gen: the translators of EVERY property are run (not only this one's): coq/Gen files are shared between
+    # properties (C04 uses C08's, C10 uses C09's ...), and a Gen file left behind by an earlier run against a
+    # different tree must never be what this run proves against.  A translator that fails only matters if one
+    # of the Gen files it owns is in this property's dependency closure.
+    build_lock = BuildLock()
+    build_lock.__enter__()
+    gen_failed = {}
+    owners_file = BUILD / "gen_owners.json"
     try:
-        if hasattr(mod, "gen"):
-            mod.gen(ctx)
-    except Exception as e:  # fail-closed translator
-        ctx.tie_break("gen", f"translator failed: {e!r}\n{traceback.format_exc()[-1500:]}")
+        known_owner = json.loads(owners_file.read_text()) if owners_file.exists() else {}
+    except Exception:
+        known_owner = {}
+    import importlib
+    for other in sorted(p.stem for p in (VERIF / "props").glob("C[0-9][0-9].py")):
+        try:
+            omod = mod if other == pid else importlib.import_module(f"props.{other}")
+            if hasattr(omod, "gen"):
+                GEN_OWNER["current"] = other
+                omod.gen(ctx if other == pid else Ctx(other, tier, seed))
+        except Exception as e:  # fail-closed translator
+            gen_failed[other] = f"{e!r}\n{traceback.format_exc()[-1200:]}"
+        finally:
+            GEN_OWNER["current"] = None
+    known_owner.update(GEN_OWNER["written"])
+    try:
+        BUILD.mkdir(exist_ok=True)
+        owners_file.write_text(json.dumps(known_owner, indent=0, sort_keys=True))
+    except Exception:
+        pass
+    if pid in gen_failed:
+        ctx.tie_break("gen", "translator failed: " + gen_failed[pid])
+    try:
+        closure = set(coq_deps(pid))
+    except Exception:
+        closure = set()
+    for other, err in gen_failed.items():
+        if other == pid:
+            continue
+        stale = sorted(f for f, o in known_owner.items() if o == other and f in closure)
+        if stale:
+            ctx.tie_break("gen", f"translator of {other} failed and this property depends on its {stale}: {err[:600]}")
 
     # 2. prove
     proof = {"ok": False, "theorems": [], "closed": 0, "axioms": [], "cmd": "", "output": ""}
@@ -401,6 +454,8 @@ def run_property(mod, tier, seed, replay=None):
                 ctx.tie_break("audit", "coqchk failed: " + o[-800:])
     except Exception as e:
         ctx.tie_break("proof", f"build error {e!r}")
+
+    build_lock.__exit__(None, None, None)
 
     # 3. runner
     have_runner = False
